@@ -61,6 +61,9 @@ func BuildSchema(dialect, createText string) (*Schema, error) {
 		for i := range td.cols {
 			c := &td.cols[i]
 			td.idx[c.name] = i
+			if c.foreignType && dialect == "postgres" {
+				return nil, fmt.Errorf("unsupported column type %q for %s.%s in the Postgres schema", c.dialectType, st.table, c.name)
+			}
 			if c.width == 0 {
 				if dialect == "postgres" {
 					c.width = 32
@@ -549,6 +552,12 @@ func (ex *Exec) coerceToCol(a SVal, c *ColDef, dialect string) SVal {
 			return SVal{v: tt.Str(""), null: a.null}
 		}
 		sqlFail("type-mismatch: %s value written to %s column %s", a.v.sort, c.typ, c.name)
+	}
+	if c.numericAffinity && a.v.sort == SString {
+		// SQLite NUMERIC/REAL affinity: text that looks like a number is converted on the way in, so what is
+		// stored (and later compared and returned) need not be the text that was written
+		ex.H.noteStub("SQLite column " + c.name + " declared " + c.dialectType + ": NUMERIC affinity, text that looks numeric is stored converted")
+		return SVal{v: tt.UF("sqlite_numeric_affinity", SString, a.v), null: a.null}
 	}
 	if c.typ == "INTEGER" && c.width == 32 && dialect == "postgres" {
 		lo, hi := tt.BV(uint64(0xffffffff80000000), 64), tt.BV(0x7fffffff, 64)
